@@ -162,8 +162,8 @@ impl Property for C15 {
     }
     fn budget(&self, tier: Tier) -> Budget {
         match tier {
-            Tier::Quick => Budget { cases: 100_000, min_len: 4, max_len: 80 },
-            Tier::Thorough => Budget { cases: 8_000_000, min_len: 4, max_len: 100 },
+            Tier::Quick => Budget { cases: 1200000, min_len: 4, max_len: 80 },
+            Tier::Thorough => Budget { cases: 24000000, min_len: 4, max_len: 100 },
         }
     }
 
